@@ -53,6 +53,15 @@ Fixpoint turning (sweep : bool) (a0 c : pt) (vs : list pt) (q acc : Z) : option 
       if (d =? 3)%Z then None else turning sweep a0 c vs' q' (acc + d)%Z
   end.
 
+(** a single chord for the whole arc (Go emits it when the tolerance exceeds the radius, also for a large arc, where the chord
+    cannot "advance by less than half a turn"): every circle point is within r + |c - m| of the chord's midpoint m, and every
+    chord point within half the chord of an end point, which is an end point of the arc *)
+Definition chk_single_chord (c : pt) (r d : Q) (vs : list pt) : bool :=
+  match vs with
+  | [v; w] => Qleb r d && Qleb (dist2 (lerp v w (1 # 2)) c) (sqr (d - r)) && Qleb (dist2 v w) (sqr (2 * d))
+  | _ => false
+  end.
+
 Definition chk_flat_circle (a : circ_arc) (vs : list pt) (tol K slack : Q) : bool :=
   let c := ca_c a in let r := ca_r a in
   match vs with
@@ -64,7 +73,7 @@ Definition chk_flat_circle (a : circ_arc) (vs : list pt) (tol K slack : Q) : boo
       forallb (fun v => in_annulus c v (r - slack) (r + tol + slack)) vs &&
       (* a circle so small that every point of it is within K tol of every vertex (|P-V| <= 2r + tol + slack):
          nothing else to check; otherwise chords and turning *)
-      (Qleb (2 * r + tol + slack) (K * tol) ||
+      (Qleb (2 * r + tol + slack) (K * tol) || chk_single_chord c r (K * tol) vs ||
       chk_chords c (ca_sweep a) (r - K * tol) (r + tol + slack) vs &&
       (* the directions turn monotonically through less than a full turn, and more than half a turn exactly
          when the large-arc flag is set (a half turn, up to slack, satisfies both) *)
@@ -93,7 +102,8 @@ Definition judge_circ (a : circ_arc) (tol K slack : Q) (ok : bool) (vs : list pt
     let ends := match vs with v0 :: _ => negb (peqb v0 (ca_start a) && peqb (last vs v0) (ca_end a) && Nat.leb 2 (length vs)) | [] => true end in
     let ctr := negb (in_annulus c (ca_start a) (r - slack) (r + slack) && in_annulus c (ca_end a) (r - slack) (r + slack)) in
     let vert := negb (forallb (fun v => in_annulus c v (r - slack) (r + tol + slack)) vs) in
-    let chords := negb (Qleb (2 * r + tol + slack) (K * tol) || chk_chords c (ca_sweep a) (r - K * tol) (r + tol + slack) vs) in
+    let chords := negb (Qleb (2 * r + tol + slack) (K * tol) || chk_single_chord c r (K * tol) vs ||
+                        chk_chords c (ca_sweep a) (r - K * tol) (r + tol + slack) vs) in
     [ (bitz ends 2 + bitz vert 4 + bitz chords 8 + bitz ctr 128 + 32)%Z; Z.of_nat (length vs - 1); 0%Z; 0%Z; 0%Z ].
 
 (** ** Arc -> cubic Beziers: implicit conic of the ellipse with rational centre, radii and rotation
